@@ -13,6 +13,7 @@ correspond:  every built-in disease, with and without demographics (and two co-c
 search:      the property on the real code only: per-step partition, dead-hold-none, whole-step arrows, exit timers not
              before infection, new/cum_infections = number of infection events (= distinct agents where immunity is permanent).
 """
+import json
 import numpy as np
 from harness.props import c13_probe as P
 
@@ -680,7 +681,22 @@ def oracle_run(cfg, max_fail=40):
 
 
 def search(ctx):
-    cfgs = plan(ctx, 2, 6, small=not ctx.thorough)
+    cfgs = []
+    # targeted re-examination: every configuration in which the correspondence saw the real code leave its model is run
+    # through the oracle first (the broken tie names the family; the oracle turns it into a failing input on the real code)
+    seen = set()
+    for b in ctx.broken:
+        d = b.get('data') or {}
+        for c in (d.get('cfg'), (d.get('example') or {}).get('cfg') if isinstance(d.get('example'), dict) else None):
+            if isinstance(c, dict):
+                key = json.dumps(c, sort_keys=True, default=str)
+                if key not in seen and len(seen) < 8:
+                    seen.add(key); cfgs.append(c)
+    if ctx.broken:      # something broke: the fixed scenario families once more, with fresh draws
+        for _ in range(2):
+            cfgs += P.scenario_cfgs(ctx.rng)
+    ctx.notes['targeted_oracle_runs'] = len(seen)
+    cfgs += plan(ctx, 2, 6, small=not ctx.thorough)
     for cfg in cfgs:
         try:
             fails, info = oracle_run(cfg)
